@@ -35,7 +35,8 @@ def _replay_r1(m):
     pool = pool_json('p1', ['uA', 'uB'], [6, 6], [m['reserve_x'], m['reserve_y']], 'constant_product', fees)
     from .c02 import _mints
     steps = [{'op': 'set_pool', 'pool': pool}]
-    steps += _mints([('pool_manager', [('uA', m['pm_balance_A']), ('uB', m['pm_balance_B'])]), ('trader', [('uA', m['offer'])])])
+    steps += _mints([('pool_manager', [('uA', m['pm_balance_A']), ('uB', m['pm_balance_B'])]),
+                     ('sink', [('uA', m['supply_A'] - m['pm_balance_A']), ('uB', m['supply_B'] - m['pm_balance_B'])]), ('trader', [('uA', m['offer'])])])
     steps.append({'op': 'query', 'contract': 'pool_manager', 'msg': {'simulation': {'offer_asset': coin_j('uA', m['offer']), 'ask_asset_denom': 'uB', 'pool_identifier': 'p1'}}})
     steps.append({'op': 'execute', 'contract': 'pool_manager', 'sender': 'trader', 'funds': [coin_j('uA', m['offer'])],
                   'msg': {'swap': {'ask_asset_denom': 'uB', 'max_slippage': dec_j(m['max_slippage_atomics']), 'pool_identifier': 'p1'}}})
